@@ -8,6 +8,8 @@ import (
 	"fmt"
 	"io"
 	"math/big"
+	"reflect"
+	"sort"
 
 	"github.com/datastax/go-cassandra-native-protocol/compression/lz4"
 	"github.com/datastax/go-cassandra-native-protocol/compression/snappy"
@@ -188,37 +190,69 @@ func bigNeg(bits uint) *big.Int {
 type Scenario struct {
 	Name    string
 	Threads [][]Op
+	// Fresh, when set, builds the threads over NEWLY CONSTRUCTED codec instances; the harness calls it at
+	// the start of every execution (and once more for the sequential reference), so that the FIRST use of an
+	// instance is the concurrent one - state a codec builds lazily on first use is otherwise already settled
+	// by the time the threads start.
+	Fresh func() [][]Op
+}
+
+func decodeIfaceOp(name string, codec datacodec.Codec, src interface{}) Op {
+	return Op{name, func() string {
+		b, err := codec.Encode(src, primitive.ProtocolVersion4)
+		if err != nil {
+			return "encode error: " + err.Error()
+		}
+		var d interface{}
+		wasNull, err := codec.Decode(b, &d, primitive.ProtocolVersion4)
+		if err != nil {
+			return fmt.Sprintf("bytes=%x decode error: %v", b, err)
+		}
+		return fmt.Sprintf("bytes=%x null=%v value=%s (%T)", b, wasNull, deepStr(reflect.ValueOf(d)), d)
+	}}
+}
+
+func freshCodecs() [][]Op {
+	list, _ := datacodec.NewList(datatype.NewList(datatype.Int))
+	set, _ := datacodec.NewSet(datatype.NewSet(datatype.Varchar))
+	mp, _ := datacodec.NewMap(datatype.NewMap(datatype.Varchar, datatype.NewList(datatype.Int)))
+	tup, _ := datacodec.NewTuple(datatype.NewTuple(datatype.Int, datatype.NewList(datatype.Varchar)))
+	return [][]Op{
+		{decodeIfaceOp("list-a", list, []int32{1, 2}), decodeIfaceOp("map-a", mp, map[string][]int32{"k": {7}}), decodeIfaceOp("tuple-a", tup, []interface{}{int32(1), []string{"x"}}), decodeIfaceOp("set-a", set, []string{"s"})},
+		{decodeIfaceOp("list-b", list, []int32{-5}), decodeIfaceOp("map-b", mp, map[string][]int32{"q": {8, 9}}), decodeIfaceOp("tuple-b", tup, []interface{}{int32(2), []string{"y", "z"}}), decodeIfaceOp("set-b", set, []string{"t", "u"})},
+	}
 }
 
 // Scenarios: each thread encodes/decodes its OWN frames, segments and values.
 func Scenarios(three bool) []Scenario {
 	v4, v5 := primitive.ProtocolVersion4, primitive.ProtocolVersion5
 	sc := []Scenario{
-		{"frames-lz4", [][]Op{
+		{Name: "frames-lz4", Threads: [][]Op{
 			{frameOp("query-a", FrameLz4, query(v4, "a-query", 300, true)), frameOp("rows-a", FrameLz4, rows(v4, "a-rows", 90))},
 			{frameOp("query-b", FrameLz4, query(v4, "b-query", 40, true)), frameOp("rows-b", FrameLz4, rows(v5, "b-rows", 700))},
 		}},
-		{"frames-snappy-raw", [][]Op{
+		{Name: "frames-snappy-raw", Threads: [][]Op{
 			{frameOp("query-a", FrameSnappy, query(v4, "a-query", 300, true)), rawOp("raw-a", query(v4, "a-raw", 64, true))},
 			{frameOp("query-b", FrameSnappy, query(v4, "b-query", 33, true)), rawOp("raw-b", rows(v4, "b-raw", 200))},
 		}},
-		{"segments", [][]Op{
+		{Name: "segments", Threads: [][]Op{
 			{segOp("lz4-a", SegLz4, 500, 'a'), segOp("plain-a", SegPlain, 40, 'a')},
 			{segOp("lz4-b", SegLz4, 90, 'b'), segOp("plain-b", SegPlain, 300, 'b')},
 		}},
-		{"values", [][]Op{
+		{Name: "values", Threads: [][]Op{
 			{valueOp("varint-a", datacodec.Varint, bigNeg(70), func() interface{} { return new(big.Int) }), valueOp("decimal-a", datacodec.Decimal, datacodec.CqlDecimal{Unscaled: bigNeg(17), Scale: 3}, func() interface{} { return &datacodec.CqlDecimal{} })},
 			{valueOp("varint-b", datacodec.Varint, bigNeg(9), func() interface{} { return new(big.Int) }), valueOp("decimal-b", datacodec.Decimal, datacodec.CqlDecimal{Unscaled: bigNeg(40), Scale: 9}, func() interface{} { return &datacodec.CqlDecimal{} })},
 		}},
-		{"collections", [][]Op{
+		{Name: "collections", Threads: [][]Op{
 			{valueOp("list-a", ListOfInt, []int32{1, 2, 3}, func() interface{} { return &[]int32{} }), valueOp("map-a", MapVarcharVarint, map[string]*big.Int{"k": bigNeg(33)}, func() interface{} { return &map[string]*big.Int{} })},
 			{valueOp("list-b", ListOfInt, []int32{-7}, func() interface{} { return &[]int32{} }), valueOp("map-b", MapVarcharVarint, map[string]*big.Int{"k": bigNeg(12)}, func() interface{} { return &map[string]*big.Int{} })},
 		}},
-		{"structs", [][]Op{
+		{Name: "structs", Threads: [][]Op{
 			{valueOp("udt-a", UdtCodec, udtA{A: 41, B: "a-side"}, func() interface{} { return &udtA{} }), valueOp("tuple-a", TupleCodec, tupA{N: 7, S: "a-tuple"}, func() interface{} { return &tupA{} })},
 			{valueOp("udt-b", UdtCodec, udtB{Second: "b-side", First: -9}, func() interface{} { return &udtB{} }), valueOp("udt-b-map", UdtCodec, map[string]interface{}{"a": int32(3), "b": "b-map"}, func() interface{} { return &udtB{} })},
 		}},
-		{"compressors", [][]Op{
+		{Name: "fresh-codecs", Fresh: freshCodecs, Threads: freshCodecs()},
+		{Name: "compressors", Threads: [][]Op{
 			{compOp("lz4len-a", Lz4.CompressWithLength, Lz4.DecompressWithLength, 400, 'a'), compOp("snappy-a", Snappy.CompressWithLength, Snappy.DecompressWithLength, 70, 'a')},
 			{compOp("lz4raw-b", Lz4.Compress, Lz4.Decompress, 120, 'b'), compOp("snappy-b", Snappy.CompressWithLength, Snappy.DecompressWithLength, 500, 'b')},
 		}},
@@ -228,7 +262,53 @@ func Scenarios(three bool) []Scenario {
 			t := sc[i].Threads
 			third := []Op{t[1][1], t[0][0]}
 			sc[i].Threads = append(t, third)
+			if f := sc[i].Fresh; f != nil {
+				sc[i].Fresh = func() [][]Op {
+					t := f()
+					return append(t, []Op{t[1][1], t[0][0]})
+				}
+			}
 		}
 	}
 	return sc
+}
+
+// deepStr renders a decoded value by content: pointers are followed (their addresses differ from run to
+// run), map entries are sorted.
+func deepStr(v reflect.Value) string {
+	if !v.IsValid() {
+		return "nil"
+	}
+	switch v.Kind() {
+	case reflect.Ptr, reflect.Interface:
+		if v.IsNil() {
+			return "nil"
+		}
+		return "&" + deepStr(v.Elem())
+	case reflect.Slice, reflect.Array:
+		if v.Kind() == reflect.Slice && v.IsNil() {
+			return "nil"
+		}
+		out := "["
+		for i := 0; i < v.Len(); i++ {
+			out += deepStr(v.Index(i)) + " "
+		}
+		return out + "]"
+	case reflect.Map:
+		var es []string
+		for _, k := range v.MapKeys() {
+			es = append(es, deepStr(k)+":"+deepStr(v.MapIndex(k)))
+		}
+		sort.Strings(es)
+		return "map" + fmt.Sprint(es)
+	case reflect.Struct:
+		out := "{"
+		for i := 0; i < v.NumField(); i++ {
+			if v.Type().Field(i).PkgPath == "" {
+				out += deepStr(v.Field(i)) + " "
+			}
+		}
+		return out + "}"
+	}
+	return fmt.Sprint(v.Interface())
 }
